@@ -256,19 +256,29 @@ package kex
 
 // the second step of each exchange derives the keys for the session's own suite,
 // which the constructor took from the cipher registry (precondition on the session)
+// A completed exchange accepts no second parameter (a replayed TO2.ProveDevice must not
+// replace the session keys): success leaves the session in the state in which the next
+// call is refused with the keys untouched.
 //@ func kex.DHSession.SetParameter
 //@   params s xB _
 //@   props C14 C10(sweep)
 //@   sweep bounds,panic,make,nilmem,div
 //@   requires @suite suiteok(s.Cipher)
+//@   ensures @once old(s.a) == nil ==> result != nil && u(s.SEK) == old(u(s.SEK)) && u(s.SVK) == old(u(s.SVK))
+//@   ensures @done result == nil ==> s.a == nil
 //@ func kex.ECDHSession.SetParameter
 //@   params s xB _
 //@   props C14 C10(sweep)
 //@   sweep bounds,panic,make,nilmem,div
 //@   requires @suite suiteok(s.Cipher)
+//@   ensures @once old(s.priv) == nil ==> result != nil && u(s.SEK) == old(u(s.SEK)) && u(s.SVK) == old(u(s.SVK))
+//@   ensures @done result == nil ==> s.priv == nil
 //@ func kex.OAEPSession.SetParameter
 //@   params s xB ownerKey
+//@   local err = UnOp#12 | UnOp#14 | UnOp#4 | UnOp#5 | addr:Alloc#1 | extract1:call:crypto/rsa.DecryptOAEP#1 | extract2:call:kex.oaepSymmetricKey#1
 //@   props C14 C10(sweep)
 //@   sweep bounds,panic,make,nilmem,div
 //@   requires @suite suiteok(s.Cipher)
 //@   requires @randlen len(s.xA) <= 65535
+//@   ensures @once old(len(s.SEK)) > 0 ==> err != nil && u(s.SEK) == old(u(s.SEK)) && u(s.SVK) == old(u(s.SVK))
+//@   ensures @done err == nil ==> len(s.SEK) > 0
